@@ -80,6 +80,8 @@ def _to_v4_mapped(ctx, a, c):
 def obligations(prog, src, tier, seed):
     obs = []
     tcp_info(prog, obs)
+    import ob_serve
+    obs += ob_serve.obligations(prog, src, tier, seed, "C09")
     f_accept = prog.find_one(r"stream::duplex::<impl at src/stream/duplex\.rs:\d+:\d+: \d+:\d+>::poll_accept$")
     f_next = prog.find_one(r"stream::duplex::<impl at src/stream/duplex\.rs:\d+:\d+: \d+:\d+>::poll_next$")
     K = 2 if tier == "quick" else 3
